@@ -111,9 +111,32 @@ def histJson (eps : Rat) (xstes : List (List Rat)) (outs : Fl → List (Except E
     four eps (xstes.getD k []) fun c => (outs c).getD k (.error .assert)
   Json.mkObj [("calls", Json.arr calls.toArray), ("scale", optRats scale)]
 
+def binAttrsOfJson (o : Json) : Except String BinAttrs := do
+  pure { use01 := ← getBool o "use01", alpha := ← getArg o "alpha", sa := ← getAxisArg o "sa",
+         eps := ← getEps o "eps", minE := ← getExpArg o "min_e", maxE := ← getExpArg o "max_e" }
+
 def handle (j : Json) : Except String Json := do
   let op ← getStr j "op"
   match op with
+  | "bin_pair" =>
+    -- two live binary / stochastic_binary(inference) objects (configured with one Python list) and ONE
+    -- history addressed to them (`w` = 0 / 1): `binRun2`, the definition `C04_shared_argument_independent`
+    -- and `C04_pair_call_as_fresh` are about
+    let a1 ← binAttrsOfJson (← j.getObjVal? "obj1")
+    let a2 ← binAttrsOfJson (← j.getObjVal? "obj2")
+    let st0 : BinSt2 := { env := { chLast := ← getBool j "ch_last" }, fst := BinObj.new a1, snd := BinObj.new a2,
+                          outs1 := [], outs2 := [] }
+    let opsJ ← (← j.getObjVal? "ops").getArr?
+    let ops ← opsJ.toList.mapM fun oj => do
+      let w ← getNat oj "w"
+      let r ← binOpOfJson oj
+      pure ((if w = 0 then Which.fst else Which.snd), r.1, r.2)
+    let eps ← getRat j "eps32"
+    let xs (w : Which) := ops.filterMap fun t => if t.1 = w then t.2.2 else none
+    let run (c : Fl) := binRun2 c st0 (ops.map fun t => (t.1, t.2.1))
+    pure <| Json.mkObj [
+      ("a", histJson eps (xs .fst) (fun c => (run c).outs1) (run (Fl.f32 eps)).fst.scale),
+      ("b", histJson eps (xs .snd) (fun c => (run c).outs2) (run (Fl.f32 eps)).snd.scale)]
   | "keys" =>
     -- grouping only: producer and consumer key of every position
     let cfg ← j.getObjVal? "cfg"
